@@ -61,7 +61,7 @@ func c20MixWeb(cs *c20Case, obs *c20Obs) {
 		obs.Error = fmt.Sprintf("only %d of %d web requests are usable as baseline", len(urls), len(c20URLs))
 		return
 	}
-	for round := 0; round < cs.Rounds; round++ {
+	for round := 0; round < cs.Rounds && !c20Enough(obs); round++ {
 		plans := make([][]string, cs.Goroutines)
 		for i := range plans {
 			for j := 0; j < cs.Ops; j++ {
@@ -103,7 +103,7 @@ func c20SettingsPhase(cs *c20Case, obs *c20Obs, web *c20Web, r *Rng, urls []stri
 	if ops > 5 {
 		ops = 5
 	}
-	for round := 0; round < rounds; round++ {
+	for round := 0; round < rounds && !c20Enough(obs); round++ {
 		plans := make([][]string, cs.Goroutines)
 		for g := range plans {
 			live := []string{}
@@ -299,7 +299,7 @@ func c20MixOptions(cs *c20Case, obs *c20Obs) {
 	first := ask(readers[0], "top")
 	// overlapped: the writer assigns, readers and web requests report
 	r := NewRng(cs.Seed)
-	for round := 0; round < cs.Rounds; round++ {
+	for round := 0; round < cs.Rounds && !c20Enough(obs); round++ {
 		var script []string
 		for i := 0; i < cs.Ops*2; i++ {
 			if r.Bool() {
@@ -417,7 +417,7 @@ func c20MixTempfile(cs *c20Case, obs *c20Obs) {
 	}
 	s0.close()
 	// (2) overlapped
-	for round := 0; round < cs.Rounds; round++ {
+	for round := 0; round < cs.Rounds && !c20Enough(obs); round++ {
 		var ss []*c20Session
 		for i := 0; i < cs.Goroutines; i++ {
 			ss = append(ss, c20StartInteractive(prof, obj))
@@ -564,7 +564,7 @@ func c20MixFetch(cs *c20Case, obs *c20Obs) {
 		refs[remote] = ref
 	}
 	savedRE := regexp.MustCompile(`Saved profile in (\S+)`)
-	for round := 0; round < cs.Rounds; round++ {
+	for round := 0; round < cs.Rounds && !c20Enough(obs); round++ {
 		jit := make([]time.Duration, 7)
 		for i := range jit {
 			jit[i] = time.Duration(r.Intn(2000)) * time.Microsecond
@@ -719,7 +719,7 @@ func c20MixBinutils(cs *c20Case, obs *c20Obs) {
 			base[a] = an
 		}
 		fa.Close()
-		for round := 0; round < cs.Rounds; round++ {
+		for round := 0; round < cs.Rounds && !c20Enough(obs); round++ {
 			// (a) tool configuration: get (Open, String) against update (SetTools, SetFast…)
 			shared := newBU()
 			plans := make([][]int, cs.Goroutines)
